@@ -52,6 +52,10 @@ def make_struct_error(I, *args):
 # ================================================================================ binop
 def binop(I, op, a, b, inplace=False):
     t = type(op)
+    if isinstance(a, SymChoice):
+        a = concretize(I, a)
+    if isinstance(b, SymChoice):
+        b = concretize(I, b)
     if inplace and isinstance(a, list) and t is ast.Add:
         a.extend(I.iterate_concrete(b))
         return a
@@ -185,6 +189,10 @@ _NATIVE_BIN = {
 
 
 def order(I, sym, a, b):
+    if isinstance(a, SymChoice):
+        a = concretize(I, a)
+    if isinstance(b, SymChoice):
+        b = concretize(I, b)
     if isinstance(a, Instance) and a.cls.is_intenum:
         a = a.attrs["value"]
     if isinstance(b, Instance) and b.cls.is_intenum:
@@ -244,6 +252,10 @@ def subscript(I, obj, k):
         raise Unsupported("slice of %r" % type(obj).__name__)
     if isinstance(k, Instance) and k.cls.is_intenum:
         k = k.attrs["value"]
+    if isinstance(k, SymChoice):
+        k = concretize(I, k)
+    if isinstance(obj, SymChoice):
+        obj = concretize(I, obj)
     if isinstance(obj, dict):
         if isinstance(k, Sym):
             raise Unsupported("symbolic dict key lookup")
@@ -269,6 +281,13 @@ def subscript(I, obj, k):
                     I.raise_("IndexError", "index out of range")
                 kk = ite(cmp_op("<", k, 0), int_add(k, n), k)
                 return bytes_index(obj, kk)
+            if not isinstance(obj, str) and n > 1 and all(is_plain(x) and not isinstance(x, (list, dict, tuple)) for x in obj):
+                if I.decide(b_or(cmp_op("<", k, -n), cmp_op(">=", k, n)), "index-range"):
+                    I.raise_("IndexError", "%s index out of range" % type(obj).__name__)
+                kk = ite(cmp_op("<", k, 0), int_add(k, n), k)
+                if isinstance(kk, int):
+                    return obj[kk]
+                return choice_of(kk.e, list(obj))
             # case split over the concrete sequence (python semantics incl. negatives)
             for j in range(n):
                 if I.decide(cmp_op("==", k, j), "index==%d" % j):
@@ -332,6 +351,11 @@ def to_str(I, v, spec=""):
                 return to_str(I, a[0])
             return str(tuple(a)) if a else ""
         return "<%s object>" % v.cls.qualname
+    if isinstance(v, SymChoice):
+        try:
+            return v.map(lambda x: format(x, spec))
+        except (ValueError, TypeError):
+            return to_str(I, concretize(I, v), spec)
     if isinstance(v, Sym):
         return SymText(v, spec)
     if isinstance(v, (list, tuple, dict)) and not is_plain(v):
@@ -547,24 +571,53 @@ def call_native_method(I, obj, name, args, kwargs):
         if isinstance(obj, str) and name == "format":
             return str_format(I, obj, args, kwargs)
         try:
-            return getattr(obj, name)(*args)
+            r = getattr(obj, name)(*args)
         except NATIVE_EXC as e:
             reraise_native(I, e)
+        if isinstance(obj, dict) and name in ("keys", "values", "items"):
+            r = list(r)
+        return r
+    if isinstance(obj, SymChoice):
+        if all(is_plain(a) for a in args) and not kwargs:
+            def f(v):
+                return getattr(v, name)(*args)
+            try:
+                return obj.map(f)
+            except NATIVE_EXC + (AttributeError,):
+                pass
+        return call_native_method(I, concretize(I, obj), name, args, kwargs)
+    args = [concretize(I, a) if isinstance(a, SymChoice) else a for a in args]
+    if not isinstance(obj, Sym) and is_plain(obj) and all(is_plain(a) for a in args) and not kwargs:
+        return call_native_method(I, obj, name, args, kwargs)
     key = (_kind(obj), name)
     m = _METHODS.get(key)
     if m is None:
         if isinstance(obj, (list, dict, tuple, set)) and all(not isinstance(a, Sym) for a in args) \
                 and name in _SAFE_CONTAINER_METHODS:
             try:
-                return getattr(obj, name)(*args, **kwargs)
+                r = getattr(obj, name)(*args, **kwargs)
             except NATIVE_EXC as e:
                 reraise_native(I, e)
+            if name in ("keys", "values", "items"):
+                r = list(r)
+            return r
         raise Unsupported("method %s.%s with symbolic operands" % (_kind(obj), name))
     return m(I, obj, args, kwargs)
 
 
 _SAFE_CONTAINER_METHODS = {"append", "extend", "clear", "copy", "pop", "insert", "get", "items", "values",
                            "keys", "update", "setdefault", "add", "discard", "popitem", "reverse"}
+
+
+def concretize(I, ch):
+    """case split a SymChoice into one of its concrete alternatives"""
+    if not isinstance(ch, SymChoice):
+        return ch
+    n = len(ch.values)
+    for k in range(n - 1):
+        if I.ctx.decide(ch.idx == k, "choice"):
+            return ch.values[k]
+    return ch.values[n - 1]
 
 
 def _kind(obj):
@@ -867,6 +920,11 @@ def make_builtins(I):
             return False
         if isinstance(t, TypeObj):
             n = t.name
+            if isinstance(v, SymChoice):
+                rs = [_isinstance(I_, [x, t], {}) for x in v.values]
+                if all(rs) or not any(rs):
+                    return rs[0]
+                return _isinstance(I_, [concretize(I_, v), t], {})
             if n == "int":
                 return isinstance(v, (int, SymInt, SymBool)) and not (isinstance(v, SymInt) and v.is_real) or \
                     (isinstance(v, Instance) and v.cls.is_intenum)
